@@ -171,6 +171,7 @@ type txInst struct {
 	RTO         time.Duration
 	StartTime   time.Time
 	StartPos    int  // log position when the call was issued
+	CallPos     int  // log position when the library call began (after the scheduling point in front of it); 0 = unknown
 	Thr         int  // scheduler thread that issued the call
 	Started     bool // call issued
 	Returned    bool
@@ -633,6 +634,7 @@ func (w *cliWorld) do(ev cliEv, quiesce bool) {
 		inst.Started = true
 		inst.Thr = sched.CurrentID()
 		sched.Point("invoke", nil)
+		inst.CallPos = len(w.log)
 		err := c.Start(m, w.handlerFor(inst, idx))
 		inst.Returned, inst.RetErr = true, err
 		inst.RetAt = w.rec(obsRec{Kind: "start-ret", Inst: idx, Err: err})
@@ -647,6 +649,7 @@ func (w *cliWorld) do(ev cliEv, quiesce bool) {
 		body := func() {
 			inst.Thr = sched.CurrentID()
 			sched.Point("invoke", nil)
+			inst.CallPos = len(w.log)
 			err := c.Do(m, func(e stun.Event) { h(e) })
 			inst.Returned, inst.RetErr = true, err
 			inst.RetAt = w.rec(obsRec{Kind: "do-ret", Inst: idx, Err: err})
@@ -659,8 +662,9 @@ func (w *cliWorld) do(ev cliEv, quiesce bool) {
 	case "indicate":
 		m := cliRequest(ev.I, 20)
 		sched.Point("invoke", nil)
+		callPos := len(w.log)
 		err := c.Indicate(m)
-		w.rec(obsRec{Kind: "indicate-ret", Inst: -1, Err: err, ID: m.TransactionID})
+		w.rec(obsRec{Kind: "indicate-ret", Inst: -1, Err: err, ID: m.TransactionID, N: callPos})
 	case "resp", "dup":
 		// causality: a response exists only after a successful write carrying the id; if no such
 		// write ever happens the response is never sent (the wait gives up when nothing else can move)
